@@ -7,7 +7,7 @@ Not decided: that the three kernels pair and sum blocks identically; path-indepe
 """
 from __future__ import annotations
 
-from . import e3, e9
+from . import e3, e6, e9
 
 
 def run(chk):
@@ -26,9 +26,12 @@ def run(chk):
     e3.run_I2(chk)
     e3.run_I3(chk)
     e3.run_I4(chk)
+    chk.rule("S6", "slices of width nsym out of flat block-charge tuples start at a multiple of nsym (also in the unrolled-contraction code)", floor=25)
+    e6.run_S6(chk)
 
 
 MUTANTS = [
+    ("unrolled output charge slice unaligned", "yastn/tensor/oe_blocksparse.py", "block_ct[out_ax * nsym : (out_ax + 1) * nsym]", "block_ct[out_ax : out_ax + nsym]", "S6"),
     ("trace reads policy", "yastn/tensor/_contractions.py", "    if len(nin_0) == 0:\n        return a\n", "    if len(nin_0) == 0 or a.config.tensordot_policy == 'none':\n        return a\n", "N1"),
     ("hfs inside dispatch", "yastn/tensor/_contractions.py", "    elif a.config.tensordot_policy == 'no_fusion':\n        data, struct_c, slices_c = _tensordot_nf(a, b, nout_a, nin_a, nin_b, nout_b)\n",
      "    elif a.config.tensordot_policy == 'no_fusion':\n        data, struct_c, slices_c = _tensordot_nf(a, b, nout_a, nin_a, nin_b, nout_b)\n        hfs_c = hfs_c[::-1]\n", "N2"),
